@@ -261,6 +261,17 @@ def run_trace(ck, rng, quick):
                 lines += ["wmode c0 2", rng.choice(["rxs c0", "rxi c0 " + c07.IC.hex(), "tick"]), "tick", "wmode c0 0", "tick"]
             else:
                 lines += ["tick 2"]
+        if i % 5 == 4:
+            # events only; the master repeats STARTDT act on the started connection while events it received are unacknowledged: nothing
+            # is transmitted a second time on the same connection
+            lines = lines[:6]
+            e = 0
+            for _ in range(rng.range(2, 2 + k)):
+                e += 1
+                lines.append("enq " + c07.ev_asdu(e).hex())
+            lines += ["tick %d" % (k + 1), "rx c0 " + apci.STARTDT_ACT.hex(), "tick %d" % (k + 1)]
+            e += 1
+            lines += ["enq " + c07.ev_asdu(e).hex(), "tick 2"]
         ncmd = sum(1 for x in lines if x.startswith("rxi c0 "))
         for _ in range((ncmd * (burst + 2) + e) // max(1, k) + 4):
             lines += ["rxs c0", "tick %d" % (k + 1)]
